@@ -15,6 +15,8 @@
    * handle.close and os.close fail AFTER releasing the descriptor (on Linux
      close(2) releases the descriptor even when it reports an error;
      GzipFile.close closes its file object in a finally clause);
+   * a failing read raises OSError or, in the EOF flavour of the schedule,
+     EOFError (a truncated spill file);
    * os.remove failing with ENOENT means the file is gone (somebody else
      removed it); with another errno the file stays.
    * a gzip handle that becomes unreachable (the generator / iterator that
@@ -49,6 +51,11 @@ Section World.
   Variable enc : A -> D.
   Variable dec : D -> res A.
   Variable pick_min : forall X : Type, (X -> X -> bool) -> list X -> option (X * list X).
+  (* what a failing handle.read raises: OSError, or - eof = true - the
+     EOFError with which GzipFile.read reports a spill file that lost its tail
+     between being written and being merged (PlainException stands for it:
+     the point is that it is not an OSError) *)
+  Variable eof : bool.
 
   Notation entry := (entry K D).
 
@@ -167,7 +174,7 @@ Section World.
   (* handle.read(size=...) *)
   Definition w_read (w : world) : res unit * world :=
     match tick CRead w with
-    | (Some eno, w1) => (Raise (OSError eno), w1)
+    | (Some eno, w1) => (Raise (if eof then PlainException else OSError eno), w1)
     | (None, w1) => (Ok tt, w1)
     end.
 
